@@ -18,6 +18,7 @@ from gen import grammars as G
 from gen import trees as T
 
 LEVEL = "proof"
+REPLAY_BY_SEED = True  # a replay file names (seed, tier); ./check --replay re-runs exactly that run
 
 RULE = (
     "cases = predicate calls on generated closed argument trees: count (needle occurrences 0-8, targets incl. negative and off-by-one, "
